@@ -297,7 +297,12 @@ func (state inSession) processReject(session *session, msg *Message, rej Message
 	case targetTooHigh:
 
 		var nextState resendState
-		switch currentState := session.State.(type) {
+		currentSessionState := session.State
+		if pending, isPending := currentSessionState.(pendingTimeout); isPending {
+			// A test request is outstanding: look at the state it wraps.
+			currentSessionState = pending.sessionState
+		}
+		switch currentState := currentSessionState.(type) {
 		case resendState:
 			// Assumes target too high reject already sent.
 			nextState = currentState
